@@ -185,6 +185,29 @@ def _mk_db(kind, rshape, q1, q2, k, letters=None, budget=200, k2=None, mode2=Non
                      models=("rf",), setup=_setup_alpha(letters) if letters else None)
 
 
+def _probe_scale(which):
+    def run():
+        import pyrepseq
+        from pyrepseq import nn
+        refs, planted = hc.scale_case()
+        # queries: a copy of reference 65536 (distance 0), the planted variant of 255 (distance 0 to itself, 1 to its code), an unrelated string
+        j255 = [j for j, i in planted.items() if i == 255][0]
+        queries = [refs[65536], refs[j255], "WWWWWWWWWWWW", refs[69999]]
+        j65536 = [j for j, i in planted.items() if i == 65536][0]
+        j69999 = [j for j, i in planted.items() if i == 69999][0]
+        want = {(0, 65536, 0), (0, j65536, 1), (1, j255, 0), (1, 255, 1), (3, 69999, 0), (3, j69999, 1)}
+        if which == "symdel":
+            got = pyrepseq.symdel(list(refs), max_edits=1, seqs2=list(queries))
+        elif which == "symdeldb":
+            got = nn.SymdelDB(list(refs), 1).lookup(list(queries))
+        else:
+            got = nn.LookupDB(list(refs)).lookup(list(queries), max_edits=1)
+        got = [(int(a), int(b), int(c)) for a, b, c in got]
+        ok = len(got) == len(set(got)) and set(got) == want
+        return ok, f"[scale probe] {which}: 4 queries against {len(refs)} references: got {sorted(got)} want {sorted(want)}"
+    return run
+
+
 def conditions(tier):
     out = []
     for a in range(0, 4):
@@ -243,4 +266,7 @@ def conditions(tier):
         out.append(_mk_db("lookupdb", (1,), (1,), (), 1, hc.AMINO, budget=2400))
         out.append(_mk_db("lookupdb", (2,), (1,), (), 1, hc.AMINO, budget=3000))
         out.append(_mk_db("lookupdb", (2,), (2,), (0,), 3, S2, budget=2400))
+    for which in ("symdel", "symdeldb", "lookupdb"):
+        out.append(hc.probe_condition(f"C03/probe/{which}/70000-references", f"{which}: four queries against 70 006 references (hits at reference positions 255, 65536, 69999 "
+                                      "and beyond 70000): exact (query, reference, distance) set", _probe_scale(which)))
     return out
